@@ -119,6 +119,28 @@ def rawWeightF (p krig : Float) (x y : Nat → Float) (i j : Nat) : Float :=
 /-- The cut-off `0.005` of the code. -/
 def weightCutF : Float := 0.005
 
+/-! ## Probe lattices: the donors of a bad channel with the default parameters -/
+
+/-- Site `j` of a Neuropixels 1.0 shank as `neuropixel.trace_header(version=1)` lays it out (µm): four staggered columns,
+rows 20 µm apart, two sites per row. -/
+def np1Site (j : Nat) : Int × Int := (([43, 11, 59, 27] : List Int).getD (j % 4) 0, 20 + 20 * ((j / 2 : Nat) : Int))
+
+/-- Site `j` of a Neuropixels 2.0 shank (`trace_header(version=2)`): two columns 32 µm apart, rows 15 µm apart. -/
+def np2Site (j : Nat) : Int × Int := (27 + 32 * ((j % 2 : Nat) : Int), 20 + 15 * ((j / 2 : Nat) : Int))
+
+/-- Squared distance between two sites (µm²). -/
+def sqDist (a b : Int × Int) : Int := (b.1 - a.1) ^ 2 + (b.2 - a.2) ^ 2
+
+/-- With `p = 1.3`, `kriging_distance_um = 20` and the cut-off `0.005` a channel is a donor iff it lies within 72.12 µm;
+on the NP1 / NP2 lattices no site distance lies between 68 µm (inside) and 75 µm (outside)
+(`Analysis/InterpWeightsC15.lean: default_decay_ge / default_decay_lt`). -/
+def defaultDonorSq : Int := 4624
+
+/-- The donors of bad channel `c` on a lattice, with the default parameters: the channels labelled neither 1 nor 2 within
+68 µm. -/
+def latticeDonors (site : Nat → Int × Int) (nc : Nat) (labels : Nat → Nat) (c : Nat) : List Nat :=
+  (List.range nc).filter fun j => !isBad labels j && decide (sqDist (site c) (site j) ≤ defaultDonorSq)
+
 /-! ## `detect_bad_channels`: the recommendation (labels from the feature vectors) -/
 
 /-- `np.diff` of an index vector. -/
